@@ -166,6 +166,13 @@ func TestVerifC05(t *testing.T) {
 				reserved[va] = fr
 			}
 			fp = fp.Int(pages)
+			if r.Chance(1, 4) {
+				// a request that cannot fit is part of the reservation history too: it is refused and
+				// must leave what was reserved before it untouched (the refusal itself is C07's business)
+				big := r.PickU64([]uint64{^uint64(0) - 4096, ^uint64(0) - uint64(r.Intn(1<<26))<<12, uint64(earlyReserveLastUsed) + 4096, uint64(earlyReserveLastUsed) + 1})
+				_, _ = EarlyReserveRegion(uintptr(big))
+				run.Count("refused_reservations_in_history", 1)
+			}
 		}
 		bootRoot := m.cr3
 
